@@ -11,7 +11,7 @@ import (
 )
 
 var repo = flag.String("repo", "/repo", "repository root")
-var allExtractors = []string{"wire", "classify", "sites"}
+var allExtractors = []string{"wire", "classify", "sites", "boxconsts"}
 
 var outDir = flag.String("out", "/verif/lean/TSSVerif/Gen", "output directory for generated Lean files")
 
@@ -33,6 +33,8 @@ func main() {
 			name, body = "Classify", genClassify()
 		case "sites":
 			name, body = "Sites", genSites()
+		case "boxconsts":
+			name, body = "BoxConsts", genBoxConsts()
 		default:
 			fmt.Fprintf(os.Stderr, "unknown extractor %q\n", w)
 			os.Exit(2)
